@@ -289,3 +289,20 @@ Definition sys_new (img : image) (serial_attached audio_attached : bool) : res (
             (Mem.empty 0) (Mem.empty 0) [] serial_attached (Mem.empty 4) [] None).
 
 Definition sys_button (s : sys) (b : N) (pressed : bool) : sys := set_joy (joy_button (s_joy s) b pressed) s.
+
+(* the display's key callback (display.go onKeyFunc, wired by gameboy.New to Controller.ButtonAction and CPU.OnInput): a
+   press or release of a mapped key updates the joypad latch and ends STOP mode; nothing else - in particular HALT is
+   not left.  Keys are GLFW key codes, actions 0 = release, 1 = press, 2 = repeat (ignored). *)
+Definition key_button (k : N) : option N :=
+  match k with
+  | 65 => Some 6 (* A: Start *) | 83 => Some 7 (* S: Select *) | 90 => Some 5 (* Z: B *) | 88 => Some 4 (* X: A *)
+  | 265 => Some 0 (* Up *) | 264 => Some 1 (* Down *) | 263 => Some 2 (* Left *) | 262 => Some 3 (* Right *)
+  | _ => None
+  end.
+Definition sys_key (cs : cpu * sys) (k action : N) : cpu * sys :=
+  if (action =? 0) || (action =? 1) then
+    match key_button k with
+    | Some b => (set_stopped false (fst cs), sys_button (snd cs) b (action =? 1))
+    | None => cs
+    end
+  else cs.
